@@ -106,6 +106,7 @@ func scenarios(tier string) []vlib.Scenario {
 		}
 	}
 	if tier == "thorough" {
+		add(params{Streams: "none", Pending: "racecall", Failure: "none", Order: "conn-only", P: 3})
 		add(params{Streams: "none", Pending: "none", Failure: "cutclose", Order: "conn-only", P: 3})
 		for _, s := range []string{"up", "down", "up+down"} {
 			for _, pe := range []string{"none", "read", "call", "write"} {
@@ -126,6 +127,15 @@ func config(sc vlib.Scenario, tier string) vsched.Config {
 	cfg := vsched.Config{Preempt: 1, Switch: 1, SelCase: 1, Stall: 1, Timer: -1, Horizon: 150 * time.Second, MaxSteps: 600000}
 	cfg.Budget[vsched.BudP] = p.P
 	cfg.Scope = func(site string) bool {
+		if strings.HasPrefix(p.Pending, "race") && p.P >= 3 {
+			// three deviations are affordable only around the write itself
+			for _, s := range []string{"boundedWrite", "sendRequest.func", "iscp.(*Conn).close", "h:write:client"} {
+				if strings.Contains(site, s) {
+					return true
+				}
+			}
+			return false
+		}
 		if strings.HasPrefix(p.Pending, "race") {
 			for _, s := range []string{"(*Conn).call", "(*Conn).send", "(*Conn).SendMetadata", "boundedWrite", "sendRequest", "SendDisconnect", "SendUpstreamCall", "iscp.(*Conn).close", "wire.(*ClientConn).Close", "h:write:client"} {
 				if strings.Contains(site, s) {
